@@ -6,7 +6,12 @@ Case kinds
       on histogram 0
   {"kind": "profile", "values": [int|None...], "probes": [hex...]}
       a real column profile of an INTEGER column; estimate_values_below / above at the probes
-All queries are replayed by the float instance of the distogram model inside Coq (bit-exact)."""
+All queries are replayed by the float instance of the distogram model inside Coq (bit-exact).
+
+Round 7: a hist program may contain REJECTED calls (update with a count <= 0, dump/load of an empty histogram):
+the harness keeps going on the same objects after the exception, records the target's state after the failed
+call, and the queries that follow must answer as if the call had never been made (stream "s", Model/C14.v).
+Profile columns may hold the int64 minimum, which INTEGER columns use as their null marker."""
 import math
 from fractions import Fraction
 
@@ -28,17 +33,21 @@ LEVEL_NOTE = ("Partial: theorems are about exact arithmetic; under binary64 the 
               "branch of count_at multiplies by the first centre instead of the first count (a vendored test pins the value). Profile estimators are "
               "checked on integer-valued columns (the property's scope). Trusted: Coq kernel, vm_compute on PrimFloat, float<->hex codec.")
 DESIGN_REF = "DESIGN.md section 8, C14"
-COQ_IMPORTS = C13.COQ_IMPORTS
-COQ_CHECKS = {"f": "c13_check_f"}
-COQ_SHOW = {"f": "c13_show_f"}
-MODEL_VOS = C13.MODEL_VOS
+COQ_IMPORTS = C13.COQ_IMPORTS + "\nFrom Orso Require Import Model.C14."
+COQ_CHECKS = {"f": "c13_check_f", "s": "c14_check_s"}
+COQ_SHOW = {"f": "c13_show_f", "s": "c14_show_s"}
+MODEL_VOS = list(C13.MODEL_VOS) + ["Model/C14.vo"]
 RULE = ("histograms reached by C13's histories (updates, +, bulk loads, dump/load) and real column profiles; queries: a 48-point grid over [min, max], "
         "every bin centre and its +-1 ulp neighbours, both ends, points outside; quantile levels k/64, 0, 1, nextafter(1), outside points; "
+        "sessions with rejected calls (update with count 0 / negative at values outside, at the ends of, and inside the range, and on "
+        "centres; dump of an empty histogram) at every position of a history, queried afterwards at the grid and around the rejected values; "
+        "profile columns holding the int64-minimum null marker (with and without None beside it) and its neighbours; "
         "non-trivial = histogram with >= 2 bins and >= 3 distinct in-range answers; distinct by canonical JSON")
 TRUSTED = C13.TRUSTED
 ASSUMPTIONS = [
     "theorems over exact rationals (QA) for histograms satisfying C13's invariant with min < max",
     "count_at theorems exclude query points with min < x <= first centre (known finding F-C14-1)",
+    "profile oracle: a null of an INTEGER column is None or the int64 minimum (the column type's null marker)",
 ]
 
 ULP_GUARD = 4
@@ -81,7 +90,7 @@ def _levels(rng):
 
 def _final_state(prog):
     """run the building program once to learn the bounds and centres for choosing queries"""
-    obs = DI.run_program("f", prog)
+    obs = DI.run_program("f", prog, keep_going=True)
     st = None
     for op, ob in zip(prog, obs):
         if "state" in ob and len(op) > 1 and op[1] == 0:
@@ -101,7 +110,7 @@ def _build_ops(case):
 def observe(case):
     if case["kind"] == "hist":
         prog = _build_ops(case) + [["count_at", 0, x] for x in case["xs"]] + [["quantile", 0, q] for q in case["qs"]]
-        return {"prog": prog, "obs": DI.run_program("f", prog)}
+        return {"prog": prog, "obs": DI.run_program("f", prog, keep_going=True)}
     # profile (case["repeat"] times in this process: a later profiling must not see anything of an earlier one)
     runs = [_profile_once(case) for _ in range(int(case.get("repeat", 1)))]
     out = runs[-1]
@@ -151,6 +160,8 @@ def _profile_once(case):
 def to_coq(case, obs):
     dc = C13.default_cap()
     if case["kind"] == "hist":
+        if any("raise" in ob for ob in obs["obs"]):
+            return ("s", _session_term(obs["prog"], obs["obs"], dc))
         return ("f", DI.to_coq_case("f", obs["prog"], obs["obs"], dc))
     if obs["minimum"] is None or not obs["hist"]:
         return None
@@ -164,6 +175,26 @@ def to_coq(case, obs):
     # the state after loadb is not observed from the implementation here: only the answers are compared
     ops = [DI.coq_op("f", op, {}, dc) for op in prog]
     return ("fa", "(%s, %s)" % (L.lst(ops), L.lst(DI.coq_obs("f", x) for x in o[1:])))
+
+
+def _session_term(prog, obs, dc):
+    """a session in which some call raised: every observation goes to Coq; a rejected state-changing call carries the
+    state of its target histogram AFTER the failed call (Model/C14.v compares it with the model's, unchanged, state)"""
+    pairs = [(op, ob) for op, ob in zip(prog, obs) if op[0] != "copy"]
+    ops = [DI.coq_op("f", op, ob, dc) for op, ob in pairs]
+    so = []
+    for op, ob in pairs:
+        if "raise" in ob and op[0] not in ("count_at", "quantile"):
+            if "state" in ob:
+                inner = DI.coq_obs("f", {"state": ob["state"]})      # "(FoState (...))"
+                assert inner.startswith("(FoState ") and inner.endswith(")")
+                after = "(Some %s)" % inner[len("(FoState "):-1]
+            else:
+                after = "None"
+            so.append(f"(SRejected {L.nat(op[1])} {after})")
+        else:
+            so.append(f"(SPlain {DI.coq_obs('f', ob)})")
+    return "(%s, %s)" % (L.lst(ops), L.lst(so))
 
 
 COQ_CHECKS["fa"] = "(fun c => f_all2 (tl (run_prog FA [] (fst c))) (snd c))"
@@ -246,16 +277,27 @@ def _check_estimators(st, xs, cas, qs, qas, total_expected=None):
 def _judge(case, obs):
     if case["kind"] == "hist":
         st = None
+        states = {}
         n_build = len(_build_ops(case))
         for op, ob in zip(obs["prog"][:n_build], obs["obs"][:n_build]):
             if "raise" in ob:
-                return f"building op {op[:2]} raised {ob['raise']}", set()
-            if "state" in ob and op[1] == 0:
-                st = ob["state"]
+                if not _is_rejected(op, states):
+                    return f"building op {op[:2]} raised {ob['raise']}", set()
+                # a rejected call: nothing went in, so the histogram must be what it was
+                before, after = states.get(op[1]), ob.get("state")
+                vis = lambda s_: None if s_ is None else (s_["bins"], s_["min"], s_["max"])
+                if vis(before) != vis(after):
+                    return (f"the rejected call {op} ({ob['raise']}) changed histogram {op[1]}: bins/min/max were {vis(before)}, are {vis(after)}; "
+                            f"nothing was added, so the observed range and the total are unchanged and the estimators must answer as before"), set()
+                continue
+            if "state" in ob:
+                states[op[1]] = ob["state"]
+                if op[1] == 0:
+                    st = ob["state"]
         if st is None:
             return None, set()
-        # "the minimum / the maximum / the observed range" are those of the values that went in
-        rng_ = C13.observed_range(case["prog"])
+        # "the minimum / the maximum / the observed range" are those of the values that went in (a rejected update puts nothing in)
+        rng_ = C13.observed_range([op for op in case["prog"] if not (op[0] == "upd" and op[3] <= 0)])
         if rng_ is not None and rng_[2] and st["bins"]:
             mn_, mx_ = Fraction(float.fromhex(st["min"])), Fraction(float.fromhex(st["max"]))
             if (mn_, mx_) != (rng_[0], rng_[1]):
@@ -279,6 +321,11 @@ def _judge(case, obs):
                 + (f" (profiling no. {len(obs.get('earlier', [])) + 1} of the same data in this process)" if obs.get("earlier") else "")), set()
     nonnull = obs["count"] - obs["missing"]
     touched = set()
+    allvals = list(_profile_values(case)) + list(case.get("values_b", []))
+    true_nonnull = sum(1 for v in allvals if not _is_null(v))
+    if nonnull != true_nonnull or obs["count"] != len(allvals):
+        return (f"the profile says count {obs['count']}, missing {obs['missing']}; the column has {len(allvals)} rows of which {true_nonnull} are non-null "
+                f"(None and the int64-minimum null marker are nulls): below + above would not add up to the number of non-null values"), touched
     if obs["minimum"] is None:
         return None, touched
     mn, mx = obs["minimum"], obs["maximum"]
@@ -301,6 +348,27 @@ def _judge(case, obs):
         if prev is None or fb >= prev[1]:
             prev = (x, fb)
     return None, touched
+
+
+def _is_rejected(op, states):
+    """calls the library documents as rejected: update with a count that is not strictly positive; dump (hence the
+    dump/load round trip) of an empty histogram"""
+    if op[0] == "upd" and op[3] <= 0:
+        return True
+    if op[0] == "load" and op[1] in states and not states[op[1]]["bins"]:
+        return True
+    # h + empty: __add__ takes min(self.min, None) and raises TypeError (nothing was merged before that);
+    # the model of + (Model/C13.v hadd / omin) has always said so
+    if op[0] == "add" and op[1] in states and op[2] in states and not states[op[2]]["bins"]:
+        return True
+    return False
+
+
+INT64_MIN = -(2 ** 63)
+
+
+def _is_null(v):
+    return v is None or v == INT64_MIN      # INTEGER columns use the int64 minimum as their null marker
 
 
 def oracle(case, obs):
@@ -381,6 +449,71 @@ def _warm_case(rng):
     return {"kind": "hist", "prog": prog, "warm_at": k, "warm": warm, "xs": _grid(mn, mx, centres, rng), "qs": _levels(rng)}
 
 
+def _around(vals):
+    out = set()
+    for v in vals:
+        out.update([v, math.nextafter(v, math.inf), math.nextafter(v, -math.inf)])
+    return out
+
+
+def _reject_case(rng, tier, base=None):
+    """a history with REJECTED calls in it (count <= 0 -> ValueError; dump of an empty histogram), on the same objects as
+    the accepted ones, then the queries: a rejected call puts nothing in, so the minimum / maximum / total the
+    estimators answer from are those of the accepted calls only"""
+    h = lambda x: float(x).hex()
+    if base is None:
+        if rng.random() < 0.5:
+            cap = rng.choice([2, 3, 4, 8, 16])
+            vals = [float(rng.randint(-30, 30)) if rng.random() < 0.7 else rng.uniform(-30, 30) for _ in range(rng.randint(1, cap + 6))]
+            base = [["new", 0, cap]] + [["upd", 0, h(v), rng.choice([1, 1, 2, 5])] for v in vals]
+        else:
+            base = C13._program(rng, "f", tier)["prog"][:30]
+    prog = list(base)
+    bad_values = []
+    n_bad = rng.choice([1, 1, 2, 3])
+    for _ in range(n_bad):
+        # position: anywhere after the first op, the very first call on a fresh histogram and the end included
+        i = rng.choice([1, len(prog), rng.randint(1, len(prog))])
+        alive = sorted(set(op[1] for op in prog[:i] if op[0] == "new"))
+        k = rng.choice(alive)
+        # what histogram k looks like there on a clean run of the accepted calls so far
+        st = None
+        for op, ob in zip(prog[:i], DI.run_program("f", prog[:i], keep_going=True)):
+            if "state" in ob and op[1] == k and "raise" not in ob:
+                st = ob["state"]
+        r = rng.random()
+        if r > 0.9:
+            # h_k + (a fresh, empty histogram): raises TypeError; h_k must be what it was
+            prog[i:i] = [["new", 7, rng.choice([2, 4, 16])], ["add", k, 7]]
+            continue
+        if st is None or not st["bins"]:
+            if r < 0.3:
+                prog.insert(i, ["load", k])                 # dump of an empty histogram raises
+                continue
+            v = rng.choice([0.0, 5.0, -1000.0, 1e300])
+        else:
+            mn, mx = float.fromhex(st["min"]), float.fromhex(st["max"])
+            centres = [float.fromhex(c) for c, _ in st["bins"]]
+            span = max(mx - mn, 1.0)
+            v = rng.choice([mx + 1000.0, mn - 1000.0, mx + span, mn - span, math.nextafter(mx, math.inf), math.nextafter(mn, -math.inf),
+                            mx, mn, rng.choice(centres), rng.uniform(mn, mx), mx + 0.5, mn - 0.5, 1e300, -1e300])
+        bad_values.append(v)
+        prog.insert(i, ["upd", k, h(v), rng.choice([0, 0, -1, -3, -(2 ** 40)])])
+    accepted = [op for op, ob in zip(prog, DI.run_program("f", prog, keep_going=True)) if "raise" not in ob]
+    st = _final_state(accepted)
+    if st is None or not st["bins"]:
+        xs = sorted(_around(bad_values) | {0.0, 1.0, -1.0})
+        xs = [h(x) for x in xs if not math.isinf(x)]
+    else:
+        mn, mx = float.fromhex(st["min"]), float.fromhex(st["max"])
+        grid = set(float.fromhex(x) for x in _grid(mn, mx, [float.fromhex(c) for c, _ in st["bins"]], rng))
+        grid |= _around(bad_values)
+        for v in bad_values:
+            grid.update([(v + mn) / 2.0, (v + mx) / 2.0])
+        xs = [h(x) for x in sorted(grid) if not (math.isinf(x) or math.isnan(x))]
+    return {"kind": "hist", "prog": prog, "xs": xs, "qs": _levels(rng)}
+
+
 def _hist_case(rng, tier):
     if rng.random() < 0.25:
         return _warm_case(rng)
@@ -414,6 +547,29 @@ def _profile_case(rng):
     if not nn:
         vals[0] = rng.randint(-5, 5)
         nn = [vals[0]]
+    lo, hi = min(nn), max(nn)
+    probes = sorted(set([float(lo), float(hi)] + [float(rng.randint(lo, hi)) for _ in range(8)] + [lo + (hi - lo) * i / 10.0 for i in range(11)]))
+    return {"kind": "profile", "values": vals, "probes": [float(p).hex() for p in probes]}
+
+
+def _marker_profile_case(rng):
+    """an INTEGER column that holds the int64 minimum - the column type's null marker - once or several times, with or
+    without a None beside it (with a None the column reaches the profiler object-backed), sometimes its neighbours
+    (marker + 1, the int64 maximum), which are ordinary values"""
+    c = _profile_case(rng)
+    vals = list(c["values"])
+    if rng.random() < 0.35:
+        vals = [v for v in vals if v is not None] or [rng.randint(-5, 5)]       # no None: not object-backed
+    elif None not in vals:
+        vals.insert(rng.randint(0, len(vals)), None)
+    for _ in range(rng.choice([1, 1, 2, 3])):
+        vals.insert(rng.randint(0, len(vals)), INT64_MIN)
+    if rng.random() < 0.15:
+        vals.insert(rng.randint(0, len(vals)), rng.choice([INT64_MIN + 1, 2 ** 63 - 1]))
+    nn = [v for v in vals if not _is_null(v)]
+    if not nn:
+        vals.append(rng.randint(-5, 5))
+        nn = [vals[-1]]
     lo, hi = min(nn), max(nn)
     probes = sorted(set([float(lo), float(hi)] + [float(rng.randint(lo, hi)) for _ in range(8)] + [lo + (hi - lo) * i / 10.0 for i in range(11)]))
     return {"kind": "profile", "values": vals, "probes": [float(p).hex() for p in probes]}
@@ -466,10 +622,33 @@ def corpus():
            "xs": [h(x) for x in (1, 2.5, 3, 4.98, 5)], "qs": [h(q) for q in (0, 0.25, 0.5, 0.75, 1)]}
 
 
+    # round 7: rejected updates (count 0 / negative) far outside the range in the middle of a history, then queries
+    base = [["new", 0, 8]] + [["upd", 0, h(v), 1] for v in range(10, 21)]
+    yield {"kind": "hist", "prog": base + [["upd", 0, h(1000), 0], ["upd", 0, h(-1000), -3]],
+           "xs": [h(x) for x in (-1000, -500, 0, 9.999, 10, 15, 20, 20.001, 500, 1000)], "qs": [h(q) for q in (0, 0.25, 0.5, 1)]}
+    # ... as the very first call on a fresh histogram, and a dump of the empty histogram, before the accepted ones
+    yield {"kind": "hist", "prog": [["new", 0, 4], ["upd", 0, h(5), 0], ["load", 0]] + [["upd", 0, h(v), 2] for v in (10, 12, 20)] + [["upd", 0, h(12), -1]],
+           "xs": [h(x) for x in (4, 5, 6, 10, 12, 16, 20, 21)], "qs": [h(q) for q in (0, 0.5, 1)]}
+    # ... a + whose right operand is empty (TypeError), between accepted updates
+    yield {"kind": "hist", "prog": [["new", 0, 4], ["upd", 0, h(3), 1], ["upd", 0, h(7), 2], ["new", 1, 4], ["add", 0, 1], ["upd", 0, h(5), 1]],
+           "xs": [h(x) for x in (2, 3, 5, 6, 7, 8)], "qs": [h(q) for q in (0, 0.5, 1)]}
+    # ... on the operand of a + before the sum is formed
+    yield {"kind": "hist", "prog": [["new", 0, 4], ["upd", 0, h(1), 1], ["upd", 0, h(2), 1], ["new", 1, 4], ["upd", 1, h(3), 1], ["upd", 1, h(99), 0],
+                                    ["add", 0, 1]],
+           "xs": [h(x) for x in (1, 2, 3, 50, 99)], "qs": [h(q) for q in (0, 1)]}
+    # round 7: the int64 minimum (null marker of INTEGER columns) in an object-backed column and in a plain one
+    yield {"kind": "profile", "values": [3, None, 4, 1, INT64_MIN, 9, 2, 6, 5, 3, 5], "probes": [h(x) for x in (1, 2, 5, 9)]}
+    yield {"kind": "profile", "values": [10, 20, INT64_MIN, 30, 40, INT64_MIN, 50], "probes": [h(x) for x in (10, 25, 50)]}
+
+
 def generate(rng, tier):
     n = 260 if tier == "quick" else 4000
     for i in range(n):
-        if i % 40 == 39:
+        if i % 5 == 2:
+            yield _reject_case(rng, tier)
+        elif i % 10 == 4:
+            yield _marker_profile_case(rng)
+        elif i % 40 == 39:
             yield _big_profile_case(rng)
         elif i % 10 == 9:
             yield _sum_profile_case(rng)
@@ -484,7 +663,8 @@ def generate(rng, tier):
 
 def search(rng):
     while True:
-        yield _hist_case(rng, "thorough") if rng.random() < 0.8 else _profile_case(rng)
+        r = rng.random()
+        yield _hist_case(rng, "thorough") if r < 0.6 else _reject_case(rng, "thorough") if r < 0.8 else _marker_profile_case(rng) if r < 0.9 else _profile_case(rng)
 
 
 def shrink(case):
